@@ -46,6 +46,7 @@ type options struct {
 	verbose bool
 	solver  string
 	noNat   bool
+	params  map[string]int
 }
 
 func main() {
@@ -327,6 +328,13 @@ func cmdRun(args []string) int {
 			opt.verbose = true
 		case "--no-native":
 			opt.noNat = true
+		case "--param":
+			i++
+			kv := strings.SplitN(args[i], "=", 2)
+			if opt.params == nil {
+				opt.params = map[string]int{}
+			}
+			opt.params[kv[0]], _ = strconv.Atoi(kv[1])
 		default:
 			prop = args[i]
 		}
@@ -374,10 +382,11 @@ func runProperty(prop string, ps *propSpec, opt options) int {
 	var violationLines, knownLines []string
 	knownPrinted := map[string]bool{}
 
-	for _, hs := range ps.Harnesses {
+	for hi, hs := range ps.Harnesses {
 		if opt.only != "" && hs.Name != opt.only {
 			continue
 		}
+		tag := fmt.Sprintf("%s.%d", hs.Name, hi)
 		entry := prog.FindHarness(hs.Name)
 		if entry == nil {
 			problems = append(problems, "harness function not found: "+hs.Name)
@@ -385,6 +394,9 @@ func runProperty(prop string, ps *propSpec, opt options) int {
 		}
 		params := map[string]int{}
 		for k, v := range hs.Params[opt.tier] {
+			params[k] = v
+		}
+		for k, v := range opt.params {
 			params[k] = v
 		}
 		h := &symex.HarnessRun{Name: hs.Name, Entry: entry, Params: params, Unwind: 16, MaxSteps: 40_000_000, MaxDecisions: 200000,
@@ -421,7 +433,7 @@ func runProperty(prop string, ps *propSpec, opt options) int {
 		var files []string
 		wfiles := map[string]*symex.Witness{}
 		for i, w := range h.Witnesses {
-			p := filepath.Join(repDir, fmt.Sprintf("%s-witness-%02d.json", hs.Name, i))
+			p := filepath.Join(repDir, fmt.Sprintf("%s-witness-%02d.json", tag, i))
 			writeJSON(p, replayFile{Property: prop, Harness: hs.Name, Pkg: hs.Pkg, Tier: opt.tier, Kind: "witness", Params: w.Params,
 				Inputs: w.Inputs, Schedule: w.Schedule, Expect: map[string]any{"observe": w.Observes}})
 			files = append(files, p)
@@ -436,7 +448,7 @@ func runProperty(prop string, ps *propSpec, opt options) int {
 			if seen[key] > 2 {
 				continue
 			}
-			p := filepath.Join(repDir, fmt.Sprintf("%s-violation-%02d.json", hs.Name, len(vfiles)))
+			p := filepath.Join(repDir, fmt.Sprintf("%s-violation-%02d.json", tag, len(vfiles)))
 			writeJSON(p, replayFile{Property: prop, Harness: hs.Name, Pkg: hs.Pkg, Tier: opt.tier, Kind: "violation", Params: v.Params,
 				Inputs: v.Inputs, Schedule: v.Schedule, Expect: map[string]any{"kind": v.Kind, "message": v.Msg, "site": v.Site, "known": v.Known}})
 			files = append(files, p)
